@@ -58,3 +58,18 @@ CLAIMED["C20"] = dict(
     not_decided="floating-point rounding of percentage x count; timer behaviour of the recycler / retryer.")
 for _p in ["C04","C07","C20"]:
     NA.pop(_p, None)
+
+CLAIMED["C05"] = dict(
+    technique="static analysis: SSA value-identity of cache keys, branch-fact dominance, guarded integer division with a structurally verified field invariant",
+    decided="a request whose selected argument is absent (nil) never reaches the parameter check; every counter-cache operation and every specific-threshold lookup is keyed by the checked value itself; the metered threshold is the value's specific item when present, else the rule's; integer divisors on the check path are non-zero; the attachment key is consulted before the positional index, negative indices are mapped by len+idx and indexing happens only inside the bounds; blocked results are returned from the loop and ShouldWait results slept exactly.",
+    not_decided="the token-bucket envelope, refill arithmetic, pacing distances, LRU capacity effects and value independence under eviction - the numeric core of the property.")
+CLAIMED["C06"] = dict(
+    technique="static analysis: sync.Pool ownership (argument list aliasing), sibling shape agreement of increment/decrement, who-may-write, value-identity of cache keys",
+    decided="the argument list re-read at Exit is not storage of a pooled object that the next Entry overwrites (the defect that released the wrong value's counter is fixed and guarded); OnEntryPassed / OnCompleted add +1 / -1 exactly once to the same cell (ConcurrencyCounter.Get of the argument extracted from the context) under identical guards; the admission test loads that cell keyed by the checked value and compares in-flight+1 with the specific threshold when present, else the general one; SentinelInput.Args is written only when the entry is created.",
+    not_decided="exactness of the cap under concurrency; LRU eviction of a live value's cell; behaviour when a rule reload replaces the counter cache between pass and exit.")
+CLAIMED["C11"] = dict(
+    technique="static analysis: guarded-arithmetic prover (sign / non-zero facts from dominating guards, phi lower bounds, constructor field invariants, validity-function facts), atomic-only, three-way partition check",
+    decided="every division in the warm-up and memory-adaptive calculators and their constructors has a divisor proven non-zero, so the effective threshold cannot become NaN or infinite (the NaN defect for tiny / zero warm-up thresholds is fixed and guarded); storedTokens / lastFilledTime are only accessed atomically; the memory-adaptive threshold is the low value at or below the low water mark, the high value at or above the high water mark and the interpolation only in between.",
+    not_decided="all rate statements (cold start level, reaching the full threshold, no starvation), monotonicity of the interpolation, non-negativity of the warm-up threshold.")
+for _p in ["C05","C06","C11"]:
+    NA.pop(_p, None)
